@@ -22,7 +22,7 @@ class TLCError(RuntimeError):
 
 
 def _find_module(name):
-    for sub in ("env", "common", "decode", "eval", "train", "data", "proto"):
+    for sub in sorted(os.listdir(SPEC)):
         p = os.path.join(SPEC, sub, name + ".tla")
         if os.path.exists(p):
             return p
